@@ -144,6 +144,15 @@ def _materialise_property_factories(tree):
         body = [x for x in st.body if not (isinstance(x, ast.Expr) and isinstance(x.value, ast.Constant))]
         defs = {x.name: x for x in body if isinstance(x, ast.FunctionDef)}
         rest = [x for x in body if not isinstance(x, ast.FunctionDef)]
+        # (bindings that only feed the `doc=` of the property - a docstring built from the parameters - do not matter)
+        if rest and isinstance(rest[-1], ast.Return) and isinstance(rest[-1].value, ast.Call) and len(rest) > 1 \
+                and all(isinstance(x, ast.Assign) and len(x.targets) == 1 and isinstance(x.targets[0], ast.Name) for x in rest[:-1]):
+            docnames = {x.targets[0].id for x in rest[:-1]}
+            used_elsewhere = {n_.id for d_ in defs.values() for n_ in ast.walk(d_) if isinstance(n_, ast.Name)} | {
+                n_.id for a_ in rest[-1].value.args for n_ in ast.walk(a_) if isinstance(n_, ast.Name)} | {
+                n_.id for k_ in rest[-1].value.keywords if k_.arg != "doc" for n_ in ast.walk(k_.value) if isinstance(n_, ast.Name)}
+            if not (docnames & used_elsewhere):
+                rest = rest[-1:]
         if not defs or len(rest) != 1 or not isinstance(rest[0], ast.Return) or not isinstance(rest[0].value, ast.Call) \
                 or ast.unparse(rest[0].value.func) != "property":
             continue
